@@ -102,7 +102,8 @@ Definition required_covered (ignored : list (string * string)) (mname : string) 
 Definition conforms_rec (d : pdesc) (ignored : list (string * string)) (records : list (string * fmt))
            (r : string * fmt) : bool :=
   match lookup (fst r) d, snd r with
-  | Some dfs, FRec fs => distinct (field_tags fs) && fields_ok records dfs fs && required_covered ignored (fst r) dfs fs
+  | Some dfs, FRec fs => distinct (field_tags fs) && distinct (map pf_name dfs) && fields_ok records dfs fs &&
+                         required_covered ignored (fst r) dfs fs
   | _, _ => false
   end.
 
